@@ -120,6 +120,32 @@ func kvDesc(k []byte, v uint64) string {
 type snap struct {
 	meta raft.SnapshotMeta
 	data []byte
+	bad  bool // damaged on disk: still listed, cannot be opened
+}
+
+// damageNewest marks the newest snapshot that can still be read as unreadable; it reports the index of
+// the snapshot a restart would then fall back to (0 if none) and whether anything was damaged
+func (st *snapStore) damageNewest(dry bool) (fallback uint64, readable int) {
+	st.mu.Lock()
+	defer st.mu.Unlock()
+	done := false
+	for _, s := range st.snaps {
+		if s.bad {
+			continue
+		}
+		readable++
+		if !done {
+			done = true
+			if !dry {
+				s.bad = true
+			}
+			continue
+		}
+		if fallback == 0 {
+			fallback = s.meta.Index
+		}
+	}
+	return
 }
 
 type snapStore struct {
@@ -201,6 +227,9 @@ func (st *snapStore) Open(id string) (*raft.SnapshotMeta, io.ReadCloser, error) 
 	defer st.mu.Unlock()
 	for _, s := range st.snaps {
 		if s.meta.ID == id {
+			if s.bad {
+				return nil, nil, fmt.Errorf("snapshot %s is damaged", id)
+			}
 			m := s.meta
 			return &m, io.NopCloser(bytes.NewReader(s.data)), nil
 		}
